@@ -187,6 +187,13 @@ func (r *Run) AddTLC(res *TLCResult) {
 	r.Trans += res.Generated
 }
 
+// Note records an extra key in the evidence's coverage.
+func (r *Run) Note(key string, v any) {
+	r.mu.Lock()
+	defer r.mu.Unlock()
+	r.Extra[key] = v
+}
+
 func (r *Run) AddTraces(n int) {
 	r.mu.Lock()
 	defer r.mu.Unlock()
